@@ -82,12 +82,12 @@ CHECKS['C12'] = dict(
    technique='PlusCal protocol models checked by TLC, the SkipList graph replayed edge-complete on the real skip list with per-step state comparison, TLC validation of recorded real histories (incl. traversals) against SetAbs',
    design='4 (C12)')
 CHECKS['C13'] = dict(
-   text='TLC model-checks Aggregator (pending-stack CAS push, first pusher becomes handler, handler_busy hand-over, two-pass batch handler): every operation '
+   text='TLC model-checks PQBatch - a transcription of handle_operations / heapify / reheap (what one batch of aggregated operations does to the heap array: first-pass pushes and shortcut pops, deferred pops, reheap, final heapify) over every array of <= 6 elements of 3 values and every batch of <= 3 operations (thorough: 7 / 4 / 3): the array is a heap again, nothing lost or invented, the results are those of some order of the batch - and EVERY transition of that graph is applied to the REAL concurrent_priority_queue by calling its handle_operations on a hand-built operation list (array and mark set white-box); the real outcome is validated by TLC (TracePQBatch, the verdict) and compared with the transcription (drift). TLC model-checks Aggregator (pending-stack CAS push, first pusher becomes handler, handler_busy hand-over, two-pass batch handler): every operation '
         'handled exactly once, one handler at a time, no deadlock, conservation. Histories of the real concurrent_priority_queue (push/try_pop, duplicates, '
         'monotone runs, the k-th element copy throwing) under seeded random cooperative schedules are checked by TLC for linearizability against PQAbs '
         '(a generic linearization search: a pop returns a maximum of the contents at its point, fails only when empty, a throwing copy fails only its own push).',
    note='real-code schedules sampled, not enumerated; known finding: a copy/move that throws inside the handler outside the guarded push wedges the queue (DESIGN 6.7)',
-   technique='PlusCal protocol model checked by TLC + TLC linearizability validation of recorded real histories against PQAbs',
+   technique='function transcription checked by TLC and replayed transition-complete on the real batch handler (TLC trace validation of the real outcomes) + PlusCal protocol model checked by TLC + TLC linearizability validation of recorded real histories against PQAbs',
    design='4 (C13), 6.7')
 CHECKS['C05'] = dict(
    text='TLC enumerates, for every size <= 12 (14 thorough), several grains and both kinds of split (middle split and the partitioners proportional split '
@@ -96,7 +96,7 @@ CHECKS['C05'] = dict(
         'with feeder; parallel_invoke; sizes 2^24+-1, 2^31+-1, 2^32+5, 2^40+3, 2^64-2) on 3 logical threads under seeded random cooperative schedules - the '
         'schedule decides the steal pattern that drives the adaptive partitioners - are validated by TLC against RangeCover.',
    note='the depth/divisor/steal-feedback logic of auto/static/affinity partitioners is exercised on the real code only (the model lets them stop splitting anywhere); steal patterns sampled; float split point above 2^24 validated as legal, not predicted',
-   technique='TLA+ function specification of range splitting checked by TLC + TLC trace validation of recorded subranges against RangeCover',
+   technique='function transcription checked by TLC and replayed transition-complete on the real batch handler (TLC trace validation of the real outcomes) + TLA+ function specification of range splitting checked by TLC + TLC trace validation of recorded subranges against RangeCover',
    design='4 (C05)')
 CHECKS['C06'] = dict(
    text='TLC model-checks Reduce (lazy Body split when the left sibling is still running, zombie Body, join in fold_tree) over complete trees with 4 and 8 '
@@ -105,7 +105,7 @@ CHECKS['C06'] = dict(
         'parallel_scan (final pass exactly once per element with the right prefix) and parallel_sort (equal keys, one inversion at a seed-dependent position, '
         'sizes 499/500/501/1000) with symbolic operands under seeded random cooperative schedules are validated by TLC against AlgoAbs.',
    note='steal patterns sampled; for parallel_sort above 12 elements the recorder decides sorted/permutation and TLC only checks the flags (stated weak spot)',
-   technique='TLA+ protocol model checked by TLC + TLC trace validation of symbolic results against AlgoAbs',
+   technique='function transcription checked by TLC and replayed transition-complete on the real batch handler (TLC trace validation of the real outcomes) + TLA+ protocol model checked by TLC + TLC trace validation of symbolic results against AlgoAbs',
    design='4 (C06), 5')
 CHECKS['C07'] = dict(
    text='TLC model-checks Pipeline (stage tasks, per-filter input_buffer with low/high tokens, parked ring with growth, token accounting, input-task recycling) '
@@ -113,7 +113,7 @@ CHECKS['C07'] = dict(
         'begin/end events of real parallel_pipeline runs for all 39 mode strings of length <= 3 plus six of length 4, token limits 1..3, 0..5 items, '
         'seed-derived per-item stage delays, on 3 logical threads under seeded random cooperative schedules are validated by TLC against PipeAbs.',
    note='arrival orders sampled; the protocol model is bound to the code through the abstract events only (no step replay)',
-   technique='TLA+ protocol model checked by TLC + TLC trace validation of filter events against PipeAbs',
+   technique='function transcription checked by TLC and replayed transition-complete on the real batch handler (TLC trace validation of the real outcomes) + TLA+ protocol model checked by TLC + TLC trace validation of filter events against PipeAbs',
    design='4 (C07)')
 CHECKS['C01'] = dict(
    text='TLC model-checks TaskPool and TaskPoolIso (arena_slot spawn incl. relocation of the pool in prepare_task_pool, get_task / get_task_impl with isolation: skipped tasks, '
@@ -125,7 +125,7 @@ CHECKS['C01'] = dict(
         'all-reserved arenas under seeded random / PCT cooperative schedules over every scheduler atomic are validated by TLC against SchedAbs (exactly once; the wait covers all work '
         'and sees its writes).',
    note='edge-complete replay for the TaskPool / TaskPoolIso instances; Mailbox / WaitTree / PoolState are bound to the code through the integrated scenarios only (TaskStream is replayed under C02); interleavings needing >4 threads are not explored',
-   technique='PlusCal protocol specs checked by TLC, edge-complete replay into the real arena_slot, TLC trace validation against SchedAbs',
+   technique='function transcription checked by TLC and replayed transition-complete on the real batch handler (TLC trace validation of the real outcomes) + PlusCal protocol specs checked by TLC, edge-complete replay into the real arena_slot, TLC trace validation against SchedAbs',
    design='4 (C01), 8')
 CHECKS['C20'] = dict(
    text='TLC model-checks Suspend (the m_stack_state hand-shake between the suspending thread, a resumer and a third dispatching thread): at most one '
@@ -134,7 +134,7 @@ CHECKS['C20'] = dict(
         'suspended units resumed in reverse order) on 1-4 logical threads under seeded random cooperative schedules are validated by TLC against SchedAbs '
         '(Suspend/Resume/Continue exactly once, the enclosing wait does not return while a covered unit is suspended, other work keeps running).',
    note='schedules sampled; nested suspension inside a resumed continuation and suspension at nested dispatch levels are not separately driven',
-   technique='TLA+ protocol model (safety + liveness) checked by TLC + TLC trace validation of real suspend/resume runs against SchedAbs',
+   technique='function transcription checked by TLC and replayed transition-complete on the real batch handler (TLC trace validation of the real outcomes) + TLA+ protocol model (safety + liveness) checked by TLC + TLC trace validation of real suspend/resume runs against SchedAbs',
    design='4 (C20)')
 CHECKS['C19'] = dict(
    text='TLC model-checks CallOnce (collaborative_once_flag m_state word: uninitialized / done / runner pointer | transient helper references bounded by the '
@@ -147,7 +147,7 @@ CHECKS['C19'] = dict(
         '(2-12 threads x 3 lookups, iteration and combine_each) under seeded random and PCT-style priority cooperative schedules at atomic-access granularity are '
         'validated by TLC against OnceAbs / EtsAbs; a crash or hang of the code under test is an event the abstract spec rejects.',
    note='real-code schedules sampled (seeded random + priority schedules with change points biased to m_state accesses), not TLC-enumerated; sequentially consistent; the protocol models are bound to the code by the abstract events only (no step replay)',
-   technique='PlusCal protocol models (safety + liveness) checked by TLC + TLC trace validation of recorded real executions against OnceAbs / EtsAbs',
+   technique='function transcription checked by TLC and replayed transition-complete on the real batch handler (TLC trace validation of the real outcomes) + PlusCal protocol models (safety + liveness) checked by TLC + TLC trace validation of recorded real executions against OnceAbs / EtsAbs',
    design='4 (C19)')
 CHECKS['C02'] = dict(
    text='TLC model-checks Monitor (concurrent_monitor prepare_wait / commit_wait / cancel_wait against notify, the futex semaphore word 0/1/2 and the monitor mutex) '
@@ -164,7 +164,7 @@ CHECKS['C02'] = dict(
         'buffers, and with scenario variants that enter the sleeping paths on purpose; Prod/Inv/Res/Enq/Begin/Stuck events are validated by TLC against WakeAbs: a '
         'state in which nothing can run although a blocked condition holds or an enqueued task is pending is rejected.',
    note='real-code schedules sampled, not TLC-enumerated; futex semantics emulated; TSO only (no weaker reorderings); the Monitor model covers notify_all, the other notifications are bound through the real-code scenarios only',
-   technique='PlusCal protocol models (SC + TSO + liveness) checked by TLC with memory-order facts extracted from the code + TLC trace validation of real blocking calls under a cooperative scheduler with stuck detection',
+   technique='function transcription checked by TLC and replayed transition-complete on the real batch handler (TLC trace validation of the real outcomes) + PlusCal protocol models (SC + TSO + liveness) checked by TLC with memory-order facts extracted from the code + TLC trace validation of real blocking calls under a cooperative scheduler with stuck detection',
    design='4 (C02)')
 CHECKS['C16'] = dict(
    text='TLC model-checks Market (transcription of market::update_allotment / adjust_demand / set_active_num_workers and arena::update_request) for every call '
@@ -178,7 +178,7 @@ CHECKS['C16'] = dict(
         'against ArenaAbs (index below the bound and pairwise distinct, workers never in reserved slots, concurrency bound, at most L-1 busy workers, one exit per '
         'entry on the same thread); isolation scenarios are validated against SchedAbs.',
    note='arena schedules sampled; occupancy is sampled inside user bodies; the worker budget is checked for limits set before any parallel work starts; known finding: two external threads inside task_arena(1,1) (DESIGN 6.11)',
-   technique='TLA+ function specification checked by TLC + TLC trace validation of the real market and of real arenas (externals and RML workers under the cooperative scheduler)',
+   technique='function transcription checked by TLC and replayed transition-complete on the real batch handler (TLC trace validation of the real outcomes) + TLA+ function specification checked by TLC + TLC trace validation of the real market and of real arenas (externals and RML workers under the cooperative scheduler)',
    design='4 (C16), 6.11')
 CHECKS['C14'] = dict(
    text='The abstract specification FlowAbs gives every node the sets of messages offered to it (accepted external puts, puts in flight, outputs of its predecessors - '
